@@ -40,6 +40,7 @@ LexLess(s, t) ==
 DeadV == [live |-> FALSE, elems |-> <<>>]
 LiveV(s) == [live |-> TRUE, elems |-> s]
 DeadB == [live |-> FALSE, read |-> <<>>, wsize |-> 0]
+DeadD == [live |-> FALSE, size |-> 0, cells |-> <<>>, filled |-> FALSE]
 LiveB(r, w) == [live |-> TRUE, read |-> r, wsize |-> w]
 
 (* An operation is a record with all of these fields (the harness logs all of them). *)
@@ -85,6 +86,8 @@ Pre(st, a) ==
        [] a.op = "bmove_ctor" -> bd(a.o) /\ bl(a.o2)
        [] a.op \in {"bmove_assign", "bswap"} -> bl(a.o) /\ bl(a.o2) /\ a.o # a.o2
        [] a.op = "to_raw_vector" -> bl(a.o) /\ vd(a.o2)
+       [] a.op = "dctor" -> ~st.da.live /\ a.n >= 0
+       [] a.op \in {"ddestroy", "dfill"} -> st.da.live
        [] OTHER -> FALSE
 
 (* Effect of an operation: new abstract state, returned iterator offset (ret, -1 if the
@@ -93,7 +96,8 @@ Pre(st, a) ==
 Eff(st, a) ==
   LET S == IF a.o \in 1..NV /\ a.op \in VectorOps THEN st.vs[a.o].elems ELSE <<>>
       S2 == IF a.o2 \in 1..NV /\ a.op \in VectorOps THEN st.vs[a.o2].elems ELSE <<>>
-      R(vs, bs, ret, rb, free) == [vs |-> vs, bs |-> bs, ret |-> ret, rb |-> rb, free |-> free]
+      R(vs, bs, ret, rb, free) == [vs |-> vs, bs |-> bs, da |-> st.da, ret |-> ret, rb |-> rb, free |-> free]
+      RD(d) == [vs |-> st.vs, bs |-> st.bs, da |-> d, ret |-> -1, rb |-> FALSE, free |-> {}]
       SetV(s) == R([st.vs EXCEPT ![a.o] = LiveV(s)], st.bs, -1, FALSE, {})
       SetVR(s, ret) == R([st.vs EXCEPT ![a.o] = LiveV(s)], st.bs, ret, FALSE, {})
       Cmp(b) == R(st.vs, st.bs, -1, b, {})
@@ -154,6 +158,11 @@ Eff(st, a) ==
        [] a.op = "to_raw_vector" ->
             \* "hands exactly its read area" to the new vector; the buffer is moved from
             R([st.vs EXCEPT ![a.o2] = LiveV(Bf.read)], st.bs, -1, FALSE, {<<"b", a.o>>})
+       \* ------------------------------------------------------------ dynamic_array
+       \* a fixed-size block of n uninitialised cells; dfill writes x, x+1, ... through data()
+       [] a.op = "dctor" -> RD([live |-> TRUE, size |-> a.n, cells |-> <<>>, filled |-> FALSE])
+       [] a.op = "ddestroy" -> RD(DeadD)
+       [] a.op = "dfill" -> RD([live |-> TRUE, size |-> st.da.size, cells |-> [i \in 1..st.da.size |-> a.x + i - 1], filled |-> TRUE])
 
 (* io::read_chars(stream, count): the next count characters, or nothing if fewer remain. *)
 ReadChars(text, skip, count) ==
@@ -169,7 +178,7 @@ vars == <<st, hist>>
 SeqsUpTo(n) == UNION {[1..k -> Val] : k \in 0..n}
 
 Init ==
-  /\ st = [vs |-> [i \in 1..NV |-> DeadV], bs |-> [i \in 1..NB |-> DeadB]]
+  /\ st = [vs |-> [i \in 1..NV |-> DeadV], bs |-> [i \in 1..NB |-> DeadB], da |-> DeadD]
   /\ hist = <<>>
 
 (* every operation instance that is valid in state s and stays within the bounds *)
@@ -181,7 +190,8 @@ OpsOf(s) ==
       len(i) == Len(s.vs[i].elems)
       room(i) == MaxLen - len(i)
       B == BaseOp
-  IN  {[B EXCEPT !.op = "ctor_default", !.o = i] : i \in dv}
+  IN  IF s.da.live THEN {[B EXCEPT !.op = "ddestroy"]} \cup {[B EXCEPT !.op = "dfill", !.x = x] : x \in Val} ELSE
+      {[B EXCEPT !.op = "ctor_default", !.o = i] : i \in dv}
   \cup {[B EXCEPT !.op = "ctor_fill", !.o = i, !.n = n, !.x = x] : i \in dv, n \in 0..MaxLen, x \in Val}
   \cup {[B EXCEPT !.op = "ctor_range", !.o = i, !.xs = xs, !.kind = k] : i \in dv, xs \in SeqsUpTo(MaxLen), k \in {"fwd", "input"}}
   \cup {[B EXCEPT !.op = "ctor_init", !.o = i, !.xs = xs] : i \in dv, xs \in SeqsUpTo(MaxLen)}
@@ -213,11 +223,16 @@ OpsOf(s) ==
   \cup {[B EXCEPT !.op = "bmove_ctor", !.o = i, !.o2 = j] : i \in db, j \in lb}
   \cup {[B EXCEPT !.op = o, !.o = ij[1], !.o2 = ij[2]] : ij \in {w \in lb \X lb : w[1] # w[2]}, o \in {"bmove_assign", "bswap"}}
   \cup {[B EXCEPT !.op = "to_raw_vector", !.o = i, !.o2 = j] : i \in lb, j \in dv}
+  \cup (\* model bound: the dynamic_array slot is explored on its own (sum, not product, of state spaces)
+        IF lv # {} \/ lb # {} THEN {}
+        ELSE IF s.da.live THEN {[B EXCEPT !.op = "ddestroy"]} \cup {[B EXCEPT !.op = "dfill", !.x = x] : x \in Val}
+        ELSE {[B EXCEPT !.op = "dctor", !.n = n] : n \in 0..(MaxW + 1)})
 
 (* Unspecified (moved-from) objects are resolved to the empty value in the model. *)
 Resolve(e) ==
   [vs |-> [i \in 1..NV |-> IF <<"v", i>> \in e.free THEN LiveV(<<>>) ELSE e.vs[i]],
-   bs |-> [i \in 1..NB |-> IF <<"b", i>> \in e.free THEN LiveB(<<>>, 0) ELSE e.bs[i]]]
+   bs |-> [i \in 1..NB |-> IF <<"b", i>> \in e.free THEN LiveB(<<>>, 0) ELSE e.bs[i]],
+   da |-> e.da]
 
 Step(a) ==
   /\ Pre(st, a)
